@@ -56,3 +56,8 @@ if __name__=='__main__':
         elif k in FIRST:
             m.pop('history',None); m['first_pass']='detected by the checks as they stood after the sixth wave'
         json.dump(m,open(d+'/meta.json','w'),indent=1)
+    # patches rebased by hand after a later fix commit touched the same lines
+    REBASED={'C20-6':"patch.diff is the sub-agent's change rebased by hand onto /repo after fix commit 9a7fb69 (which added the fold of a negative remainder to setOffset): the body of setOffset is replaced by the sub-agent's one-liner; the original diff against the earlier tree is patch.orig.diff; the demonstration is unchanged and was re-confirmed"}
+    for k,t in REBASED.items():
+        f='/verif/seeded/'+k+'/meta.json'
+        m=json.load(open(f)); m['rebased']=t; json.dump(m,open(f,'w'),indent=1)
